@@ -276,6 +276,13 @@ def finish(mod: Any, prop: str, tier: str, seed: int, plan: dict[str, Any], m: d
         src = source_lines(spec) if "<" not in spec else {}
         executable = len(src)
         reach_report[spec] = {"lines_hit": len(lines), "source_lines": executable or None, "hit": sorted(lines)}
+        if src:
+            nested_hit = {ln for k, v in m["reach"].items() if k.startswith(spec + ".<") for ln in v}
+            skip = ('"""', "#", ")", "(", "]", "}", "else:", "try:", "finally:", "@", "...")
+            unreached = {ln: txt for ln, txt in src.items() if ln not in lines and ln not in nested_hit and txt and not txt.startswith(skip)
+                         and not txt.startswith(("def ", "async def ", "class ", ":param", ":return", ":raises", ":var", "f\"", "\"", "'"))}
+            # heuristic listing for the reader (docstring text, continuation lines etc. may appear): information only
+            reach_report[spec]["possibly_unreached"] = {str(k): v[:90] for k, v in list(sorted(unreached.items()))[:25]}
     coverage = {
         "evaluations": int(m["evaluations"]),
         "distinct_nontrivial": int(distinct),
